@@ -11,12 +11,23 @@
    edges of the heap (linear).  [accAll o l] folds accumulateGrad (None + g = g, Some g0 + g =
    g0.Add(g)).  The pinned recursive walk is refuted by the diamond x; m = 2x; y = m + m
    (6 instead of 4) and evaluates 2^(d+2)-3 rules on a doubling chain of depth d.
-   The ANALYTIC half (the accumulated value is the derivative of the sum of the root's
-   elements when every rule is the vector-Jacobian product of its operation, C02/C07) is in
-   Proofs/TotalDerivP.v when present; see the end of this file. *)
+   The ANALYTIC half (Proofs/TotalDerivP.v, over the reals, fresh graph): if every back edge's
+   rule is linear in the upstream gradient with a Jacobian D (jac_hyp — exactly what the C02/C07
+   theorems establish rule by rule), then for every tracked node x of the graph and every
+   direction dl the gradient left on x, paired with dl, equals the sum over the root's elements
+   of the forward-mode tangent of the root (bp_duality: reverse accumulation is the adjoint of
+   tangent propagation; pure finite-sum algebra, any DAG).  If moreover the re-evaluated node
+   values obey the multivariate chain rule at the nodes above x (chain_hyp: a statement of
+   calculus about each operation, proved here for linear/gather and element-wise nodes and
+   instantiated on a concrete graph) then that number IS the derivative of the sum of the
+   root's elements along dl, and the gradient element i is the partial derivative with respect
+   to x_i (bp_total_derivative, bp_partial_derivative).  PARTIAL: chain_hyp is not discharged
+   for every operation of the library. *)
 From Coq Require Import List ZArith Bool.
 From Qeep Require Import Model.Scalar Model.Nd Model.Data Model.Valid Model.Api Model.Grad Model.Backprop.
-From Qeep Require Import Proofs.BackpropP.
+From Coq Require Import Reals.
+From Qeep Require Import Proofs.BackpropP Spec.RScalar Spec.VjpSpec.
+From Qeep Require Proofs.TotalDerivP.
 Import ListNotations.
 
 Theorem backprop_accumulates_each_edge_once_with_final_gradients :
@@ -66,13 +77,13 @@ Theorem visiting_order_is_topological :
   @ordered A h order /\
   @hd_error nat order = @Some nat root /\
   @In nat root order /\
-  (forall c : nat, @In nat c order -> c <= root) /\
+  (forall c : nat, @In nat c order -> (c <= root)%nat) /\
   (forall c : nat,
    @In nat c order ->
    c = root \/
    (exists (p : nat) (e : nat * @rule A),
       @In nat p order /\ @In (nat * @rule A) e (@edgesOf A h p) /\ @fst nat (@rule A) e = c)) /\
-  @length nat order <= S root.
+  (@length nat order <= S root)%nat.
 Proof. exact @topoOrder_facts. Qed.
 Print Assumptions visiting_order_is_topological.
 
@@ -85,8 +96,8 @@ Theorem rule_evaluations_equal_number_of_tracked_edges :
   @bp_topo_cnt A SA rd h root = (h', log, @Ok unit tt, k) ->
   @bp_topo A SA rd (fun (_ : option nat) (g : tensor A) => g) h root = (h', log, @Ok unit tt) /\
   k = @length (nat * @rule A) (@tracked_edges A h (@topoOrder A h root)) /\
-  k <= @length (nat * @rule A) (@flat_map (@node A) (nat * @rule A) (@nedges A) h) /\
-  @length nat (@topoOrder A h root) <= S root.
+  (k <= @length (nat * @rule A) (@flat_map (@node A) (nat * @rule A) (@nedges A) h))%nat /\
+  (@length nat (@topoOrder A h root) <= S root)%nat.
 Proof. exact @bp_topo_rule_count_closed. Qed.
 Print Assumptions rule_evaluations_equal_number_of_tracked_edges.
 
@@ -123,15 +134,17 @@ Proof. exact @Witness.walk_refuted. Qed.
 Print Assumptions pinned_path_walk_refuted.
 
 Theorem pinned_path_walk_is_exponential :
-  @map nat nat Witness.walk_count Witness.depths = [5; 13; 29; 61; 125; 253] /\
+  @map nat nat Witness.walk_count Witness.depths = [5%nat; 13%nat; 29%nat; 61%nat; 125%nat; 253%nat] /\
   @map nat nat Witness.walk_count Witness.depths =
-  @map nat nat (fun d : nat => 2 ^ (d + 2) - 3) Witness.depths /\
-  @map nat nat Witness.topo_count Witness.depths = [4; 8; 12; 16; 20; 24] /\
+  @map nat nat (fun d : nat => (2 ^ (d + 2) - 3)%nat) Witness.depths /\
+  @map nat nat Witness.topo_count Witness.depths = [4%nat; 8%nat; 12%nat; 16%nat; 20%nat; 24%nat] /\
   @map nat nat Witness.topo_count Witness.depths = @map nat nat Witness.edge_count Witness.depths /\
   @map nat (nat * nat)
     (fun d : nat =>
      let '(h, y) := Witness.chainH d in (@length (@node Z) h, @length nat (@topoOrder Z h y)))
-    Witness.depths = [(4, 4); (7, 7); (10, 10); (13, 13); (16, 16); (19, 19)] /\
+    Witness.depths =
+  [(4%nat, 4%nat); (7%nat, 7%nat); (10%nat, 10%nat); (13%nat, 13%nat); (16%nat, 16%nat);
+   (19%nat, 19%nat)] /\
   @map nat (res unit * res unit)
     (fun d : nat =>
      let
@@ -147,7 +160,7 @@ Print Assumptions pinned_path_walk_is_exponential.
 Theorem theorem_instantiated_on_the_diamond :
   let r := @bp_topo Z Witness.Z_scalar RedSum Witness.ids Witness.dh Witness.dy in
   forall n : nat,
-  @In nat n [4; 3; 2; 1; 0] ->
+  @In nat n [4%nat; 3%nat; 2%nat; 1%nat; 0%nat] ->
   @accAll Z Witness.Z_scalar (@gradOf Z Witness.dh n)
     ((if n =? Witness.dy then [Witness.vec2 1 1] else []) ++
      @contributions Z Witness.Z_scalar RedSum
@@ -158,3 +171,137 @@ Theorem theorem_instantiated_on_the_diamond :
        (@fst (@heap Z) (list (nat * tensor Z)) (@fst (@heap Z * list (nat * tensor Z)) (res unit) r)) n).
 Proof. exact @Witness.diamond_correct. Qed.
 Print Assumptions theorem_instantiated_on_the_diamond.
+
+Theorem reverse_accumulation_is_adjoint_of_tangent_propagation :
+  forall (thr : R) (draw : bool -> nat -> R) (rd : bred) (h : @heap R) (root : nat) 
+    (h' : @heap R) (lg : list (nat * tensor R)) (D : nat -> nat * @rule R -> list nat -> list nat -> R)
+    (x : nat) (dl : assignment) (gx : tensor R),
+  @rules_own R h ->
+  @wf_heap R h ->
+  @trackedOf R h root = true ->
+  @bp_topo R (R_scalar thr draw) rd (fun (_ : option nat) (g : tensor R) => g) h root =
+  (h', lg, @Ok unit tt) ->
+  (forall n : nat, @In nat n (@topoOrder R h root) -> @gradOf R h n = @None (tensor R)) ->
+  (forall rv : tensor R, @valOf R h root = @Some (tensor R) rv -> @wf R rv) ->
+  TotalDerivP.jac_hyp thr draw rd h root D ->
+  @In nat x (@topoOrder R h root) ->
+  @gradOf R h' x = @Some (tensor R) gx ->
+  sumIdx (TotalDerivP.dimsOf h x) (fun i : list nat => elt gx i * dl i) =
+  sumIdx (TotalDerivP.dimsOf h root) (fun k : list nat => TotalDerivP.tang h D x dl root k).
+Proof. exact @TotalDerivP.bp_duality. Qed.
+Print Assumptions reverse_accumulation_is_adjoint_of_tangent_propagation.
+
+Theorem gradient_is_directional_derivative_of_sum_of_root :
+  forall (thr : R) (draw : bool -> nat -> R) (rd : bred) (h : @heap R) (root : nat) 
+    (h' : @heap R) (lg : list (nat * tensor R)) (D : nat -> nat * @rule R -> list nat -> list nat -> R)
+    (x : nat) (dl : assignment) (gx : tensor R) (val : R -> nat -> assignment),
+  @rules_own R h ->
+  @wf_heap R h ->
+  @trackedOf R h root = true ->
+  @bp_topo R (R_scalar thr draw) rd (fun (_ : option nat) (g : tensor R) => g) h root =
+  (h', lg, @Ok unit tt) ->
+  (forall n : nat, @In nat n (@topoOrder R h root) -> @gradOf R h n = @None (tensor R)) ->
+  (forall rv : tensor R, @valOf R h root = @Some (tensor R) rv -> @wf R rv) ->
+  TotalDerivP.jac_hyp thr draw rd h root D ->
+  @In nat x (@topoOrder R h root) ->
+  @gradOf R h' x = @Some (tensor R) gx ->
+  (forall n : nat,
+   @In nat n (@topoOrder R h root) ->
+   (n < x)%nat -> forall (t : R) (j : list nat), val t n j = val 0 n j) ->
+  (forall (t : R) (i : list nat), val t x i = val 0 x i + t * dl i) ->
+  TotalDerivP.chain_hyp h root D x dl val ->
+  @Derive.is_derive Hierarchy.R_AbsRing Hierarchy.R_NormedModule
+    (fun t : Hierarchy.AbsRing.sort Hierarchy.R_AbsRing =>
+     sumIdx (TotalDerivP.dimsOf h root) (fun k : list nat => val t root k)) 0
+    (sumIdx (TotalDerivP.dimsOf h x) (fun i : list nat => elt gx i * dl i)).
+Proof. exact @TotalDerivP.bp_total_derivative. Qed.
+Print Assumptions gradient_is_directional_derivative_of_sum_of_root.
+
+Theorem gradient_element_is_partial_derivative :
+  forall (thr : R) (draw : bool -> nat -> R) (rd : bred) (h : @heap R) (root : nat) 
+    (h' : @heap R) (lg : list (nat * tensor R)) (D : nat -> nat * @rule R -> list nat -> list nat -> R)
+    (x : nat) (i : list nat) (gx : tensor R) (val : R -> nat -> assignment),
+  @rules_own R h ->
+  @wf_heap R h ->
+  @trackedOf R h root = true ->
+  @bp_topo R (R_scalar thr draw) rd (fun (_ : option nat) (g : tensor R) => g) h root =
+  (h', lg, @Ok unit tt) ->
+  (forall n : nat, @In nat n (@topoOrder R h root) -> @gradOf R h n = @None (tensor R)) ->
+  (forall rv : tensor R, @valOf R h root = @Some (tensor R) rv -> @wf R rv) ->
+  TotalDerivP.jac_hyp thr draw rd h root D ->
+  @In nat x (@topoOrder R h root) ->
+  @gradOf R h' x = @Some (tensor R) gx ->
+  NdP.validIdx (TotalDerivP.dimsOf h x) i ->
+  (forall n : nat,
+   @In nat n (@topoOrder R h root) ->
+   (n < x)%nat -> forall (t : R) (j : list nat), val t n j = val 0 n j) ->
+  (forall (t : R) (k : list nat), val t x k = perturb (val 0 x) i t k) ->
+  TotalDerivP.chain_hyp h root D x (TotalDerivP.indic i) val ->
+  @Derive.is_derive Hierarchy.R_AbsRing Hierarchy.R_NormedModule
+    (fun t : Hierarchy.AbsRing.sort Hierarchy.R_AbsRing =>
+     sumIdx (TotalDerivP.dimsOf h root) (fun k : list nat => val t root k)) 0 
+    (elt gx i).
+Proof. exact @TotalDerivP.bp_partial_derivative. Qed.
+Print Assumptions gradient_element_is_partial_derivative.
+
+Theorem chain_rule_at_linear_nodes :
+  forall (h : @heap R) (D : nat -> nat * @rule R -> list nat -> list nat -> R)
+    (val : R -> nat -> assignment) (dm : nat -> assignment) (n : nat) (e : nat * @rule R)
+    (k : assignment),
+  @edgesOf R h n = [e] ->
+  @trackedOf R h (@fst nat (@rule R) e) = true ->
+  (forall (t : R) (j : list nat),
+   NdP.validIdx (TotalDerivP.dimsOf h n) j ->
+   val t n j =
+   sumIdx (TotalDerivP.dimsOf h (@fst nat (@rule R) e))
+     (fun i : list nat => D n e i j * val t (@fst nat (@rule R) e) i) + k j) ->
+  (forall i : list nat,
+   NdP.validIdx (TotalDerivP.dimsOf h (@fst nat (@rule R) e)) i ->
+   @Derive.is_derive Hierarchy.R_AbsRing Hierarchy.R_NormedModule
+     (fun t : Hierarchy.AbsRing.sort Hierarchy.R_AbsRing => val t (@fst nat (@rule R) e) i) 0
+     (dm (@fst nat (@rule R) e) i)) ->
+  forall j : list nat,
+  NdP.validIdx (TotalDerivP.dimsOf h n) j ->
+  @Derive.is_derive Hierarchy.R_AbsRing Hierarchy.R_NormedModule
+    (fun t : Hierarchy.AbsRing.sort Hierarchy.R_AbsRing => val t n j) 0 (TotalDerivP.Jt h D dm n j).
+Proof. exact @TotalDerivP.chain_node_linear. Qed.
+Print Assumptions chain_rule_at_linear_nodes.
+
+Theorem chain_rule_at_elementwise_nodes :
+  forall (h : @heap R) (D : nat -> nat * @rule R -> list nat -> list nat -> R)
+    (val : R -> nat -> assignment) (dm : nat -> assignment) (n : nat) (e : nat * @rule R) 
+    (f : R -> R) (d : assignment),
+  @edgesOf R h n = [e] ->
+  @trackedOf R h (@fst nat (@rule R) e) = true ->
+  TotalDerivP.dimsOf h (@fst nat (@rule R) e) = TotalDerivP.dimsOf h n ->
+  (forall i j : list nat, D n e i j = (if idx_eqb i j then d j else 0)) ->
+  (forall (t : R) (j : list nat),
+   NdP.validIdx (TotalDerivP.dimsOf h n) j -> val t n j = f (val t (@fst nat (@rule R) e) j)) ->
+  (forall j : list nat,
+   NdP.validIdx (TotalDerivP.dimsOf h n) j ->
+   @Derive.is_derive Hierarchy.R_AbsRing Hierarchy.R_NormedModule f (val 0 (@fst nat (@rule R) e) j)
+     (d j)) ->
+  (forall i : list nat,
+   NdP.validIdx (TotalDerivP.dimsOf h (@fst nat (@rule R) e)) i ->
+   @Derive.is_derive Hierarchy.R_AbsRing Hierarchy.R_NormedModule
+     (fun t : Hierarchy.AbsRing.sort Hierarchy.R_AbsRing => val t (@fst nat (@rule R) e) i) 0
+     (dm (@fst nat (@rule R) e) i)) ->
+  forall j : list nat,
+  NdP.validIdx (TotalDerivP.dimsOf h n) j ->
+  @Derive.is_derive Hierarchy.R_AbsRing Hierarchy.R_NormedModule
+    (fun t : Hierarchy.AbsRing.sort Hierarchy.R_AbsRing => val t n j) 0 (TotalDerivP.Jt h D dm n j).
+Proof. exact @TotalDerivP.chain_node_pointwise. Qed.
+Print Assumptions chain_rule_at_elementwise_nodes.
+
+Theorem total_derivative_instantiated_on_sin_then_scale :
+  forall (thr : R) (draw : bool -> nat -> R) (rd : bred) (dl : assignment),
+  exists (h' : @heap R) (lg : list (nat * tensor R)) (gx : tensor R),
+    @bp_topo R (R_scalar thr draw) rd TotalDerivP.TotalDerivExample.ids TotalDerivP.TotalDerivExample.hE
+      2 = (h', lg, @Ok unit tt) /\
+    @gradOf R h' 0 = @Some (tensor R) gx /\
+    @Derive.is_derive Hierarchy.R_AbsRing Hierarchy.R_NormedModule
+      (fun t : Hierarchy.AbsRing.sort Hierarchy.R_AbsRing =>
+       2 * sin (1 + t * dl [0%nat]) + 2 * sin (2 + t * dl [1%nat])) 0
+      (elt gx [0%nat] * dl [0%nat] + elt gx [1%nat] * dl [1%nat]).
+Proof. exact @TotalDerivP.TotalDerivExample.ex_total_derivative. Qed.
+Print Assumptions total_derivative_instantiated_on_sin_then_scale.
